@@ -19,6 +19,7 @@ import (
 )
 
 type VC struct {
+	defOf    map[string]string
 	decls    []string
 	declared map[string]bool
 	defs     []string // asserted facts that are conservative (definitions of fresh names, instances of true axioms)
@@ -122,8 +123,15 @@ func (v *VC) FreshConst(base, sortS string) string {
 func (v *VC) Define(base, sortS, term string) string {
 	n := v.FreshConst(base, sortS)
 	v.defs = append(v.defs, fmt.Sprintf("(assert (= %s %s))", n, term))
+	if v.defOf == nil {
+		v.defOf = map[string]string{}
+	}
+	v.defOf[n] = term
 	return n
 }
+
+// DefOf: the term a defined name abbreviates ("" if the name is not a definition).
+func (v *VC) DefOf(n string) string { return v.defOf[n] }
 
 // Fact asserts a formula that is valid in the intended model (an instance of
 // an axiom of an uninterpreted symbol, e.g. unbox(box(x)) = x).
